@@ -228,6 +228,9 @@ func runC03(c *Ctx, r *Rec) {
 	checkAssociationKeyFrozen(c, r, "D1-association-key-frozen")
 	checkResetCompleteness(c, r, "D1-reset-complete", cat)
 	checkTypeLockPairing(c, r, "D1-lock-released", cat)
+	checkNoDynamicEquality(c, r, "D2-no-dynamic-equality", fileFuncs(c, "collection", cat))
+	checkNoReadBackOfRangedMap(c, r, "D1-values-from-the-ranged-pairs", fileFuncs(c, "collection", cat))
+	checkUnsignedSizeMinus(c, r, "D1-unsigned-size-minus", fileFuncs(c, "collection", cat))
 	for _, name := range sortedKeys(ms) {
 		fd := ms[name]
 		if !ast.IsExported(name) {
